@@ -118,12 +118,34 @@ def make_plain_machine(log):
         return P()
 
 
+def make_failing_machine(log):
+    """the callbacks of sender 0's first event fail (after the begin marker)"""
+    from statemachine import State, StateMachine
+
+    class F(StateMachine):
+        a = State(initial=True)
+        go = a.to.itself()
+
+        def before_go(self, sender, seq):
+            log.append(("B", sender, seq, threading.get_ident()))
+            if sender == 0 and seq == 0:
+                log.append(("E", sender, seq, threading.get_ident()))
+                raise RuntimeError("callback failed")
+
+        def after_go(self, sender, seq):
+            log.append(("E", sender, seq, threading.get_ident()))
+    with warnings.catch_warnings():
+        warnings.simplefilter("ignore")
+        return F()
+
+
 def run_threads(sc):
     plan, schedule = sc["plan"], sc["schedule"]
     n = len(plan)
     log = []
     same = sc["kind"] == "threads_same"
-    sm = make_plain_machine(log) if same else make_machine(log, None)
+    failing = sc["kind"] == "threads_fail"
+    sm = make_plain_machine(log) if same else (make_failing_machine(log) if failing else make_machine(log, None))
     S = Scheduler(n)
     popped_by = {}
     helper = None
@@ -153,6 +175,11 @@ def run_threads(sc):
             for k in range(plan[i]):
                 if same:
                     sm.send("go")                 # every sender sends the very same event
+                elif failing:
+                    try:
+                        sm.send("go", sender=i, seq=k)
+                    except RuntimeError:
+                        pass                      # whoever was draining gets the failure of the callback
                 else:
                     sm.send("go", sender=i, seq=k)
         finally:
@@ -223,6 +250,9 @@ def run_threads(sc):
         return {"same": True, "begins": len(begins), "leftover": len(sm._engine._external_queue),
                 "returned": [bool(d) for d in S.done], "overlap": overlap, "steps": steps, "hung": guard >= 20000}
     leftover = [(td.kwargs["sender"], td.kwargs["seq"]) for td in sm._engine._external_queue]
+    if failing:
+        return {"failing": True, "begins": [list(x) for x in begins], "leftover": [list(x) for x in leftover],
+                "returned": [bool(d) for d in S.done], "overlap": overlap, "steps": steps, "hung": guard >= 20000}
     popped = [[list(b), p] for b, p in zip(begins, pops)]
     return {"steps": steps, "popped": popped, "leftover": [list(x) for x in leftover],
             "returned": [bool(d) for d in S.done], "overlap": overlap or len(begins) != len(pops),
@@ -276,6 +306,7 @@ def run_tasks(sc):
 
     done = [False] * n
     puts = []
+    box_cancelled = [False]
 
     async def sender(i, sm):
         try:
@@ -317,6 +348,7 @@ def run_tasks(sc):
         guard = 0
         cancelled = []
         extra = []
+        box_cancelled[0] = False
         while (not all(done) or any(not t.done() for t in extra)) and guard < 3000:
             guard += 1
             # quiescence: nothing more can run without opening a gate
@@ -335,6 +367,7 @@ def run_tasks(sc):
                 # the task that is draining (it is suspended inside a callback) gets cancelled, e.g. by a
                 # timeout around its send; then one more event is sent by a fresh task
                 cancelled.append(True)
+                box_cancelled[0] = True
                 opened = [e for e in log if e[0] == "B"][-1]
                 if not [e for e in log if e[0] == "E" and e[1:] == opened[1:]]:
                     log.append(("E", opened[1], opened[2]))       # its block ends here
@@ -365,7 +398,7 @@ def run_tasks(sc):
             "leftover": [list(x) for x in leftover], "returned": list(done), "overlap": overlap,
             "fifo": [list(x) for x in begins] == [list(x) for x in puts], "nputs": len(puts),
             "subseq": _is_subseq([tuple(x) for x in begins], [tuple(x) for x in puts]),
-            "flushed": any(x[0] == 8 for x in begins)}
+            "flushed": any(x[0] == 8 for x in begins), "cancelled": box_cancelled[0]}
 
 
 def _is_subseq(a, b):
@@ -435,7 +468,7 @@ def run_listener_probe(sc):
 def run_impl(sc):
     if sc["kind"] == "listener_probe":
         return run_listener_probe(sc)
-    if sc["kind"] in ("threads", "threads_same"):
+    if sc["kind"] in ("threads", "threads_same", "threads_fail"):
         return run_threads(sc)
     return run_tasks(sc)
 
@@ -463,8 +496,9 @@ def coq_case(sc, obs):
             # the draining task was cancelled inside a callback: that is a failing callback (C04) - the lock is
             # released and what was waiting is dropped; the event sent afterwards is processed; whatever was
             # processed was processed in put order; nothing is left over
+            # (when every event was over before the chosen point, nothing was cancelled and nothing more sent)
             ok = (not obs["overlap"] and not obs["leftover"] and all(obs["returned"]) and obs.get("subseq")
-                  and obs.get("flushed"))
+                  and (obs.get("flushed") or not obs.get("cancelled")))
             return "(mk6 false [] [] [] [] [])" if ok else "(mk6 false [] [] [((9, 9), 9)] [] [])"
         if sc.get("same_events"):
             ok = (not obs["overlap"] and not obs["leftover"] and all(obs["returned"]) and obs.get("fifo")
@@ -477,6 +511,13 @@ def coq_case(sc, obs):
               and sorted(map(tuple, obs["begins"])) == sorted((i, k) for i in range(n) for k in range(sc["plan"][i]))
               and all([bb for bb in obs["begins"] if bb[0] == i] == [[i, k] for k in range(sc["plan"][i])] for i in range(n)))
         return "(mk6 false [] [] [] [] [])" if ok else "(mk6 false [] [] [((9, 9), 9)] [] [])"
+    if sc["kind"] == "threads_fail":
+        # a failing callback (C04) while other threads send: what was waiting behind the failing event is dropped;
+        # whatever is put afterwards is processed; once every sender has returned nothing is left in the queue,
+        # nothing was begun twice and no two events overlapped
+        ok = (not obs["overlap"] and not obs["hung"] and all(obs["returned"]) and not obs["leftover"]
+              and len({tuple(x) for x in obs["begins"]}) == len(obs["begins"]))
+        return "(mk6 true [] [] [] [] [])" if ok else "(mk6 true [] [] [((9, 9), 9)] [] [])"
     if sc["kind"] == "threads_same":
         # identical events cannot be told apart: exactly-once is checked by counting
         ok = (not obs["overlap"] and not obs["hung"] and all(obs["returned"]) and obs["leftover"] == 0
@@ -527,6 +568,19 @@ def generate(rng, tier):
     scs += same
     parts.append(("threads, 2-4 senders all sending the very same event (equal triggers), random schedules: every "
                   "send must be processed once (counted)", ns_))
+    fl = []
+    for k0 in range(0, 130, 1):
+        for k1 in ((0, 4, 8, 12, 16, 24, 40) if tier == "quick" else range(0, 48, 2)):
+            fl.append({"kind": "threads_fail", "plan": [1, 1], "schedule": [0] * k0 + [1] * k1 + [0] * 300})
+    for _ in range(150 if tier == "quick" else 3000):
+        n = rng.randint(2, 4)
+        sched = []
+        for _ in range(rng.randint(1, 6)):
+            sched += [rng.randrange(n)] * rng.randint(1, 60)
+        fl.append({"kind": "threads_fail", "plan": [rng.randint(1, 2) for _ in range(n)], "schedule": sched})
+    scs += fl
+    parts.append(("threads, the callbacks of sender 0's first event fail: every preemption point of sender 0 x several "
+                  "lengths of sender 1, plus random schedules for 2-4 senders", len(fl)))
     nt = 120 if tier == "quick" else 3000
     t = []
     for _ in range(nt):
@@ -580,7 +634,7 @@ CLASSIFIERS = {}
 
 
 def extra_coverage(scs, obs, verdicts):
-    return {"thread_schedules": sum(1 for s in scs if s["kind"] in ("threads", "threads_same")),
+    return {"thread_schedules": sum(1 for s in scs if s["kind"] in ("threads", "threads_same", "threads_fail")),
             "task_schedules": sum(1 for s in scs if s["kind"] == "tasks"),
             "schedules_that_strand_an_event": sum(1 for v in verdicts if v == 1),
             "protocol_steps_replayed_in_model": sum(len(o.get("steps", [])) for o in obs if isinstance(o, dict))}
